@@ -278,7 +278,7 @@ def run_plan(plan, tier, seed, wd):
             continue
         dbg = E.CONFIGS[cfg][3]
         cases = plan.gen_cfg(tier, seed, cfg) if hasattr(plan, "gen_cfg") else plan.gen(tier, seed)
-        parsed = E.run_both(cases, dbg, driver, harness, os.path.join(wd, cfg))
+        parsed = E.run_both(cases, dbg, driver, harness, os.path.join(wd, cfg), unst=cfg.startswith("unstable"))
         ofail, cfail, stats = compare(plan, cases, parsed, dbg)
         results.append({"cfg": cfg, "cases": cases, "ofail": ofail, "cfail": cfail, "stats": stats,
                         "driver": driver, "harness": harness, "dbg": dbg, "parsed": parsed})
